@@ -344,8 +344,9 @@ class Body:
                 t = self.blocks[i]['term']['k']
                 if t == 'return':
                     ss = [EXIT]
+                ss = [x for x in ss if not (self.blocks[x]['term']['k'] == 'unreachable' and not self.blocks[x]['stmts'])]
                 if not ss:
-                    new = frozenset([i])  # diverging (panic / unreachable)
+                    new = allset          # diverging (panic / unreachable): constrains nothing - post-dominance is about returning paths
                 else:
                     new = frozenset.intersection(*[pd[s] for s in ss if s in pd]) | {i} if any(s in pd for s in ss) else frozenset([i])
                 if new != pd[i]:
@@ -1027,6 +1028,11 @@ def _rewrite(t):
         if src[0] == 'call' and src[1] == 'RangeInclusive::new' and len(src) == 4:
             return ('itervar', ('rangeincl', src[2], src[3])) + ident
         return ('itervar', src) + ident
+    # spelling-independent forms of "the last / first element"
+    if t[0] == 'unwrap' and isinstance(t[1], tuple) and len(t[1]) == 3 and t[1][0] == 'call' and t[1][1] in ('slice::last', 'slice::first'):
+        return ('last', t[1][2]) if t[1][1] == 'slice::last' else ('index', t[1][2], ('const', 0))
+    if t[0] == 'index' and len(t) == 3 and isinstance(t[2], tuple) and len(t[2]) == 3 and t[2][0] == 'sub' and t[2][2] == ('const', 1) and t[2][1] == ('len', t[1]):
+        return ('last', t[1])
     if t[0] == 'veclit' and isinstance(t[1], tuple) and t[1] and t[1][0] == 'update':
         # Box<MaybeUninit<[T;N]>> written once with an array aggregate
         return ('veclit', t[1][3])
